@@ -30,6 +30,18 @@ CHECKS = {
                      "recordings to be equal (the property verbatim) and both equal to Api.tla over RefSem; iterator laws model-checked in MC_Iter.",
                 note="Common-syntax grammar bounded as in C01, plain/(?U)/(?x) spellings; fancy = regex but != spec is reported as a tool error (model gap), never as a verdict. " + TCB,
                 technique="differential recording validated by TLC against the TLA+ API model (Api.tla over RefSem)"),
+    "C05": dict(level="model_checking", ref="6 C05",
+                text="VM.tla marks every slicing/unwrap site of vm.rs as a `panic` state; MC_Hybrid runs the REAL programs of the unrestricted grammar under VM.tla "
+                     "with invariants at every state (no panic site reachable, ix on a character boundary, capture slots valid, answer valid); every public entry "
+                     "point is recorded under catch_unwind over texts with 1-4 byte characters and TLC judges every raw offset; real VM traces are validated step by step.",
+                note="Memory safety itself is not modelled (the model says where the Rust code would panic). Bounds: unrestricted grammar to 3 nodes + shapes + random, texts up to length 3. " + TCB,
+                technique="TLC model checking of the VM model on real programs + trace validation of API records and VM traces"),
+    "C07": dict(level="model_checking", ref="6 C07",
+                text="Per (pattern, text, offset) the unlimited search with hook statistics and the same search under limits {0,1,2,3,5,10,100,10^6,B-1,B} are recorded; "
+                     "TLC runs VM.tla on the real program under each limit and requires the recorded outcome, the exact threshold B, no runtime error by default "
+                     "on tiny inputs and the step bound; MC_Hybrid checks termination/no-runtime-error on real programs of the unrestricted grammar.",
+                note="StepBound is this framework's own (generous) formula. Bounds as C05. " + TCB,
+                technique="trace validation of limit behaviour against the TLA+ VM model + TLC model checking of termination"),
     "C08": dict(level="model_checking", ref="6 C08",
                 text="MC_Iter model-checks the Matches state machine for every leaf behaviour allowed by the leaf contract (order, no overlap, termination, "
                      "sticky error); complete find_iter histories of the real library are validated by TLC against Api!FindIter over RefSem, incl. error histories under tiny backtrack limits.",
